@@ -375,6 +375,9 @@ func runProtocol(kc *kernelCtx, blocks []*Block, only string, want map[string]bo
 	if on("C03") || on("C14") || on("C17") {
 		pc.p2BareReceive(only)
 	}
+	if on("C09") || on("C01") || on("C06") || on("C10") || on("C11") {
+		pc.d2ContextlessMethods(only)
+	}
 	if on("C08") || on("C05") || on("C02") {
 		pc.p7NoTryLock(only)
 	}
